@@ -35,6 +35,8 @@ type ScheduleSpec struct {
 	FFResets   int     // number of times a validator loses its data and fast-syncs back
 	FFSingleServer bool // only one (random) peer answers fast-forward requests
 	PuppetProb float64 // probability that a step is a puppet (Byzantine-content validator) exchange
+	CloseLeaves bool   // the second leave request follows the first within a few steps
+	ResetInWindow bool // with CloseLeaves: the fast-forward resets follow the second leave closely, a join comes later
 }
 
 type shapeState struct {
@@ -122,8 +124,19 @@ func (nw *Network) RunSchedule(sp ScheduleSpec) {
 	for i := 0; i < sp.Refused; i++ {
 		place("refused")
 	}
+	firstLeave, closeSecond := -1, -1
+	windowResets, windowSeen := 0, -1
 	for i := 0; i < sp.Leaves; i++ {
-		place("leave")
+		if i > 0 && sp.CloseLeaves && firstLeave >= 0 {
+			// a second leave a few steps after the first: both changes pending at once
+			st := firstLeave + 4 + rng.Intn(16)
+			acts[st] = append(acts[st], mAct{"leave"})
+			closeSecond = st
+			continue
+		}
+		st := sp.Steps/10 + rng.Intn(sp.Steps*6/10+1)
+		acts[st] = append(acts[st], mAct{"leave"})
+		firstLeave = st
 	}
 	if sp.Rejoin {
 		st := sp.Steps * 8 / 10
@@ -131,6 +144,12 @@ func (nw *Network) RunSchedule(sp ScheduleSpec) {
 	}
 	for i := 0; i < sp.FFResets; i++ {
 		st := sp.Steps/5 + rng.Intn(sp.Steps*7/10+1)
+		if sp.ResetInWindow && closeSecond >= 0 {
+			// resets while both validator-set changes are still pending (decided but
+			// not yet in force): triggered below by the state of the anchors
+			windowResets++
+			continue
+		}
 		acts[st] = append(acts[st], mAct{"ffreset"})
 	}
 	joinCount := 0
@@ -168,6 +187,37 @@ func (nw *Network) RunSchedule(sp ScheduleSpec) {
 				}
 			}
 		}
+		if sp.ResetInWindow && windowResets > 0 && step%4 == 0 {
+			// does some node offer an anchor whose frame carries two or more pending
+			// validator-sets? then a validator resets itself now
+			for _, q := range nw.babblers() {
+				if _, fr, err := q.Core.GetAnchorBlockWithFrame(); err == nil && fr != nil {
+					pending := 0
+					for r := range fr.PeerSets {
+						if r > fr.Round {
+							pending++
+						}
+					}
+					if pending >= 2 {
+						acts[step] = append(acts[step], mAct{"ffreset"})
+						windowResets--
+						nw.Res.count("resets_triggered_while_two_validator_sets_pending", 1)
+						if windowSeen < 0 {
+							windowSeen = step
+							nw.Res.count("histories_with_two_pending_validator_sets_at_an_anchor", 1)
+							// one more change after the resets
+							st := step + 50 + rng.Intn(40)
+							if n0 >= 6 {
+								acts[st] = append(acts[st], mAct{"leave"})
+							} else {
+								acts[st] = append(acts[st], mAct{"join"})
+							}
+						}
+						break
+					}
+				}
+			}
+		}
 		// membership actions
 		for _, a := range acts[step] {
 			b := nw.babblers()
@@ -190,7 +240,11 @@ func (nw *Network) RunSchedule(sp ScheduleSpec) {
 				// many that the silent minority reaches a third
 				cands := []*SimNode{}
 				for _, n := range b {
-					if n.Core.Validators().ByID[n.ID] != nil && n.Core.Validators().Len() > 3 {
+					minSet := 3
+					if sp.CloseLeaves {
+						minSet = 2 // two leaves in a row may shrink a set of four to two
+					}
+					if n.Core.Validators().ByID[n.ID] != nil && n.Core.Validators().Len() > minSet && nw.leaving[n.Idx] == nil && (len(nw.leaving) < 2 || (sp.ResetInWindow && len(nw.leaving) < 3)) {
 						cands = append(cands, n)
 					}
 				}
@@ -210,8 +264,32 @@ func (nw *Network) RunSchedule(sp ScheduleSpec) {
 					break
 				}
 				x := b[rng.Intn(len(b))]
+				if sp.ResetInWindow {
+					// not one of the leaving validators
+					stay := []*SimNode{}
+					for _, q := range b {
+						if nw.leaving[q.Idx] == nil {
+							stay = append(stay, q)
+						}
+					}
+					if len(stay) == 0 {
+						break
+					}
+					x = stay[rng.Intn(len(stay))]
+				}
 				if x.Core.Validators().ByID[x.ID] == nil {
 					break
+				}
+				if sp.ResetInWindow {
+					// everybody fetches x's events first: the window is short
+					for _, o := range b {
+						if o == x {
+							continue
+						}
+						if xp := o.Core.Peers().ByPubKey[x.PubHex]; xp != nil {
+							nw.Pull(o, xp, Fault{}, 0)
+						}
+					}
 				}
 				allKnow := true
 				mine := x.Core.KnownEvents()[x.ID]
@@ -258,6 +336,9 @@ func (nw *Network) RunSchedule(sp ScheduleSpec) {
 							}
 						}
 						nw.FFServe = map[int]bool{srv.Idx: true}
+					}
+					if sp.ResetInWindow && x.Node.GetState() == _state.CatchingUp {
+						nw.FastForward(x)
 					}
 				}
 			case "rejoin":
